@@ -53,7 +53,38 @@ def unwpath(p):
   return [unwkey(k) for k in p]
 
 
+class _MissingH:
+  """Harness-side stand-in for pg.MISSING_VALUE (the harness module must not import pyglove)."""
+
+  def __repr__(self):
+    return 'MISSING'
+
+
+MISSING_H = _MissingH()
+
+
+class ObjSpec:
+  """A partial pg.Object of class `cls` (see SCHEMA) with the given fields bound."""
+
+  def __init__(self, cls, fields):
+    self.cls, self.fields = cls, fields
+
+  def __repr__(self):
+    return '%s.partial(%s)' % (self.cls, ', '.join('%s=%r' % kv for kv in self.fields.items()))
+
+
+# field name -> default (REQUIRED: no default, unbound fields hold a missing-value placeholder)
+REQUIRED = object()
+SCHEMA = {'A': [('x', REQUIRED), ('y', REQUIRED), ('z', 5)], 'B': [('p', REQUIRED), ('q', REQUIRED)]}
+
+
 def wval(v):
+  if v is MISSING_H or type(v).__name__ == 'MissingValue':
+    return {'m': True}
+  if isinstance(v, bool):
+    return {'b': v}
+  if isinstance(v, ObjSpec):
+    return {'o': v.cls, 'd': [[wkey(k), wval(x)] for k, x in v.fields.items()]}
   if v is None or (isinstance(v, int) and not isinstance(v, bool)):
     return v
   if isinstance(v, str):
@@ -73,6 +104,12 @@ def unwval(w, shared=None):
     return w
   if 's' in w:
     return uncps(w['s'])
+  if 'm' in w:
+    return MISSING_H
+  if 'b' in w:
+    return bool(w['b'])
+  if 'o' in w:
+    return ObjSpec(w['o'], {unwkey(k): unwval(x, shared) for k, x in w['d']})
   if 'ref' in w:
     return shared.get(w['ref'])
   if 'def' in w:
@@ -346,7 +383,7 @@ SET_OPS = [(8, 'add'), (2, 'add_ii'), (8, 'remove'), (5, 'contains'), (3, 'has_p
 def gen_value(rng, depth, flat_friendly, top=False):
   """A nested plain value. flat_friendly: keys the flat form can express (mostly)."""
   if depth <= 0 or (rng.chance(0.3) and not top):
-    return rng.choice([None, 0, 1, -3, 7, 'v', 'abc', '', 'x.y', 12345678901234567890])
+    return rng.choice([None, 0, 1, -3, 7, 'v', 'abc', '', 'x.y', 12345678901234567890, False, True])
   if rng.chance(0.45):
     return [gen_value(rng, depth - 1, flat_friendly) for _ in range(rng.randint(0, 3))]
   d = {}
@@ -412,6 +449,128 @@ def add_aliases(rng, v, flat_friendly):
         if free:
           t[rng.choice(free)] = obj
   return v
+
+
+def expected_tree(v, sym):
+  """What the API must show for a value spec — pyglove-free: partial objects become dicts of their
+  schema fields (unbound required fields hold MISSING_H, defaults apply); symbolic dicts / lists
+  (everything below a symbolic node, or a root wrapped in pg.Dict / pg.List) drop entries whose value
+  is a plain missing-value placeholder, as pg.Dict / pg.List do on construction."""
+  if isinstance(v, ObjSpec):
+    out = {}
+    for f, default in SCHEMA[v.cls]:
+      if f in v.fields:
+        out[f] = expected_tree(v.fields[f], True)
+      else:
+        out[f] = MISSING_H if default is REQUIRED else default
+    return out
+  if isinstance(v, dict):
+    out = {}
+    for k, x in v.items():
+      e = expected_tree(x, sym)
+      if sym and e is MISSING_H:
+        continue
+      out[k] = e
+    return out
+  if isinstance(v, list):
+    es = [expected_tree(x, sym) for x in v]
+    return [e for e in es if not (sym and e is MISSING_H)]
+  return v
+
+
+def has_obj(v):
+  if isinstance(v, ObjSpec):
+    return True
+  if isinstance(v, dict):
+    return any(has_obj(x) for x in v.values())
+  if isinstance(v, list):
+    return any(has_obj(x) for x in v)
+  return False
+
+
+def resolves(e, p):
+  """Does path p address a position of the tree e? None: not decidable by position (the path goes
+  through a str leaf, which KeyPath.query indexes like a sequence, or uses a negative index)."""
+  for k in p:
+    if isinstance(e, dict):
+      if not any(tkey(k) == tkey(k2) for k2 in e):
+        return False
+      e = [x for k2, x in e.items() if tkey(k2) == tkey(k)][0]
+    elif isinstance(e, list):
+      if not isinstance(k, int):
+        return None if any(x == k for x in e if isinstance(x, str)) else False
+      if k < 0:
+        return None
+      if k >= len(e):
+        return False
+      e = e[k]
+    elif isinstance(e, str):
+      return None
+    else:
+      return False
+  return True
+
+
+SYM_KEYS = ['a', 'b', 'c', 'x', 'y', 'foo', 'x1', '0', '12', 'x.y', '$', 'a[0]']
+LOOK_LEAVES = [MISSING_H, MISSING_H, None, 0, '', False, True, 1, -3, 'v', 'abc']
+
+
+def gen_look_value(rng, depth, sym):
+  if depth <= 0 or rng.chance(0.3):
+    k = rng.below(10)
+    if k == 0:
+      return []
+    if k == 1:
+      return {}
+    return rng.choice(LOOK_LEAVES)
+  k = rng.below(10)
+  if k < 3:
+    return [gen_look_value(rng, depth - 1, sym) for _ in range(rng.randint(0, 4))]
+  if k < 7:
+    d = {}
+    for _ in range(rng.randint(0, 4)):
+      key = rng.choice(SYM_KEYS) if (sym or rng.chance(0.6)) else gen_key(rng)
+      if wf_key(key):
+        d[key] = gen_look_value(rng, depth - 1, sym)
+    return d
+  cls = rng.choice(['A', 'A', 'B'])
+  fields = {}
+  for f, _ in SCHEMA[cls]:
+    if rng.chance(0.5):
+      x = gen_look_value(rng, depth - 1, True)
+      if x is not MISSING_H:
+        fields[f] = x
+  return ObjSpec(cls, fields)
+
+
+def gen_probes(rng, e, clean_only):
+  nodes = [list(p) for p in all_nodes(e)]
+  probes = []
+  for _ in range(rng.randint(3, 8)):
+    p = list(rng.choice(nodes))
+    node = e
+    for k in p:
+      node = node[k]
+    m = rng.below(8)
+    if m == 0:
+      pass
+    elif m <= 3:
+      if isinstance(node, dict):
+        p = p + [rng.choice(['zz', 'nope', 0] if not clean_only else ['zz', 'nope'])]
+      elif isinstance(node, list):
+        p = p + [len(node) + rng.below(2)]
+      else:
+        p = p + [rng.choice([0, 'k'])]
+    elif m == 4 and p:
+      p[-1] = rng.choice(['zz', 7]) if isinstance(p[-1], str) else p[-1] + 3
+    elif m == 5 and p:
+      p = p[:-1] + [p[-1], rng.choice(['a', 0])]
+    elif m == 6 and not clean_only:
+      p = p + [rng.choice([-1, -9, 'v', ''])]
+    else:
+      p = p[:rng.randint(0, len(p))]
+    probes.append(p)
+  return probes
 
 
 def flat_of(v):
@@ -511,6 +670,22 @@ class C10(Prop):
       if rng.chance(0.4):
         v = add_aliases(rng, v, ff)
       yield {'op': 'hier', 'v': wval_shared(v)}
+    for _ in range(n_hier):
+      mode = rng.weighted([(3, 'plain'), (3, 'sym'), (3, 'obj')])
+      if mode == 'obj':
+        cls = rng.choice(['A', 'B'])
+        v = ObjSpec(cls, {f: x for f, _ in SCHEMA[cls] if rng.chance(0.5)
+                          for x in [gen_look_value(rng, 2, True)] if x is not MISSING_H})
+      else:
+        v = gen_look_value(rng, 3, mode == 'sym')
+        if not isinstance(v, (dict, list)):
+          v = {'k': v, 'e': MISSING_H} if rng.chance(0.5) else [v, MISSING_H, 0]
+        if mode == 'plain' and rng.chance(0.3):
+          v = add_aliases(rng, v, True)
+      sym = mode != 'plain'
+      e = expected_tree(v, sym and not isinstance(v, ObjSpec) or isinstance(v, ObjSpec))
+      yield {'op': 'look', 'v': wval_shared(v), 'sym': sym,
+             'probes': [wpath(p) for p in gen_probes(rng, e, clean_only=sym or has_obj(v))]}
     for _ in range(n_query):
       v = gen_value(rng, 3, True, top=True)
       if rng.chance(0.3):
@@ -522,6 +697,12 @@ class C10(Prop):
         p = p + [rng.choice([0, -1, 5, 'a', 'v', 'b', ''])]
       elif m == 1 and p:
         p[-1] = rng.choice([0, -1, -2, 3, 'a', 'zz', '0'])
+      if rng.chance(0.3) and isinstance(v, (dict, list)):
+        # missing-value placeholders as leaves of a plain value
+        for c, _ in containers_of(v):
+          for k in (list(c.keys()) if isinstance(c, dict) else range(len(c))):
+            if not isinstance(c[k], (dict, list)) and rng.chance(0.3):
+              c[k] = MISSING_H
       yield {'op': 'query', 'v': wval_shared(v), 'p': wpath(p)}
     for _ in range(n_canon):
       v = self.gen_noncanonical(rng)
@@ -614,6 +795,9 @@ class C10(Prop):
     if case['op'] == 'routes':
       case = {'op': 'rt', 'keys': case['keys']}
     r = dict(case)
+    if r['op'] == 'look':
+      e = expected_tree(unwval(case['v']), case['sym'])
+      return {'op': 'look', 'v': wval(e), 'probes': case['probes'], 'dc': digit_classes(case)}
     if 'v' in r:
       r['v'] = unfold_w(r['v'])        # the model is over trees: aliasing is unfolded
     if r['op'] == 'arith' and 'same' in r['q']:
@@ -622,6 +806,8 @@ class C10(Prop):
     return r
 
   def compare(self, case, impl_out, model_out):
+    if case['op'] == 'look' and impl_out.get('build_error'):
+      return None
     if case['op'] != 'routes':
       return super().compare(case, impl_out, model_out)
     want = [model_out['str'], model_out['parsed'], model_out['str_plain']]
@@ -654,6 +840,8 @@ class C10(Prop):
       except Exception as e:     # pylint: disable=broad-except
         back = _exc(e)
       return {'model': wpath(p.keys), 'back': back}
+    if op == 'look':
+      return self.impl_look(case, KeyPath)
     if op == 'routes':
       return self.impl_routes(case, KeyPath)
     if op == 'arith':
@@ -669,7 +857,8 @@ class C10(Prop):
     if op == 'hier':
       return self.impl_hier(case, utils, KeyPath)
     if op == 'query':
-      v = unwval(case['v'])
+      import pyglove as pg
+      v = self.build_real(unwval(case['v']), pg)
       try:
         r = KeyPath(unwpath(case['p'])).query(v)
       except Exception as e:     # pylint: disable=broad-except
@@ -688,6 +877,160 @@ class C10(Prop):
         out['flat_back'] = _exc(e)
       return out
     raise ValueError('unknown op %r' % op)
+
+  _classes = None
+
+  def pg_classes(self, pg):
+    if C10._classes is None:
+      ns = {}
+      for name, fields in SCHEMA.items():
+        members = [(f, pg.typing.Any() if d is REQUIRED else pg.typing.Any(default=d)) for f, d in fields]
+        ns[name] = pg.members(members)(type('C10' + name, (pg.Object,), {}))
+      C10._classes = ns
+    return C10._classes
+
+  def build_real(self, v, pg):
+    """The real value for a spec: plain dict / list, pg.MISSING_VALUE, partial pg.Objects."""
+    memo = {}
+
+    def go(x):
+      if x is MISSING_H:
+        return pg.MISSING_VALUE
+      if isinstance(x, ObjSpec):
+        return self.pg_classes(pg)[x.cls].partial(**{f: go(y) for f, y in x.fields.items()})
+      if isinstance(x, dict):
+        if id(x) not in memo:
+          memo[id(x)] = {}
+          for k, y in x.items():
+            memo[id(x)][k] = go(y)
+        return memo[id(x)]
+      if isinstance(x, list):
+        if id(x) not in memo:
+          memo[id(x)] = []
+          for y in x:
+            memo[id(x)].append(go(y))
+        return memo[id(x)]
+      return x
+    return go(v)
+
+  def impl_look(self, case, KeyPath):
+    import pyglove as pg
+    spec = unwval(case['v'])
+    try:
+      with pg.allow_partial(True):
+        root = self.build_real(spec, pg)
+        if case['sym'] and isinstance(root, dict):
+          root = pg.Dict(root)
+        elif case['sym'] and isinstance(root, list):
+          root = pg.List(root)
+    except Exception as e:     # pylint: disable=broad-except
+      return {'model': None, 'build_error': '%s: %s' % (type(e).__name__, str(e)[:200])}
+    symbolic = isinstance(root, pg.Symbolic)
+    sentinel = object()
+    pre, visited, ident, sym_obs = [], [], [], []
+
+    def same(a, b):
+      if a is b:
+        return True
+      try:
+        return type(a) is type(b) and bool(a == b)
+      except Exception:     # pylint: disable=broad-except
+        return False
+
+    def pre_fn(path, x, parent):
+      pre.append(wpath(path.keys))
+      try:
+        ex = path.exists(root)
+        g = path.get(root, sentinel)
+        q = path.query(root)
+        if ex is False or g is sentinel:
+          visited.append('absent')
+        elif ex is True and same(g, x) and same(q, x):
+          visited.append('present')
+        else:
+          visited.append('other-node')
+        ident.append(g is x and q is x)
+      except Exception as e:     # pylint: disable=broad-except
+        visited.append(type(e).__name__)
+        ident.append(False)
+      if symbolic:
+        try:
+          sym_obs.append([bool(root.sym_has(path)), root.sym_get(path, sentinel) is x,
+                          bool(root.sym_has(str(path))) if all(wf_key(k) for k in path.keys) else True])
+        except Exception as e:     # pylint: disable=broad-except
+          sym_obs.append([type(e).__name__])
+      return pg.TraverseAction.ENTER
+    pg.traverse(root, pre_fn)
+    probes, probe_x = [], []
+    for w in case['probes']:
+      p = KeyPath(unwpath(w))
+      try:
+        probes.append(bool(p.exists(root)))
+      except Exception as e:     # pylint: disable=broad-except
+        probes.append(type(e).__name__)
+      x = {}
+      try:
+        x['get'] = 'default' if p.get(root, sentinel) is sentinel else 'found'
+      except Exception as e:     # pylint: disable=broad-except
+        x['get'] = type(e).__name__
+      try:
+        p.query(root)
+        x['query'] = 'found'
+      except Exception as e:     # pylint: disable=broad-except
+        x['query'] = type(e).__name__
+      if symbolic:
+        try:
+          x['sym_has'] = bool(root.sym_has(p))
+        except Exception as e:     # pylint: disable=broad-except
+          x['sym_has'] = type(e).__name__
+      probe_x.append(x)
+    try:
+      n_all = len(pg.query(root, custom_selector=lambda k, x: True, enter_selected=True))
+    except Exception as e:     # pylint: disable=broad-except
+      n_all = type(e).__name__
+    return {'model': {'pre': pre, 'visited': visited, 'probes': probes}, 'ident': ident, 'sym_obs': sym_obs,
+            'probe_x': probe_x, 'n_all': n_all, 'symbolic': symbolic}
+
+  def oracle_look(self, case, out):
+    if out.get('build_error'):
+      return {'signature': 'look:cannot-build', 'what': 'the value spec could not be built: %s' % out['build_error']}
+    m = out['model']
+    spec = unwval(case['v'])
+    e = expected_tree(spec, case['sym'])
+    want = [tpath(p) for p in all_nodes(e)]
+    pre = [tpath(unwpath(p)) for p in m['pre']]
+    if pre != want:
+      missing = [p for p in want if p not in pre]
+      return {'signature': 'traverse:pg-visits', 'what': 'pg.traverse reports %d paths for %r, the value has %d nodes; '
+              'never visited: %r' % (len(pre), spec, len(want), missing[:6])}
+    for i, (p, st) in enumerate(zip(m['pre'], m['visited'])):
+      node = self._at(e, unwpath(p))
+      if st == 'absent':
+        return {'signature': 'exists:reported-path-absent', 'what': 'traversal of %r reports the path %r (holding %r) but '
+                'exists() is False / get() returns the default' % (spec, unwpath(p), node)}
+      if st != 'present' or not out['ident'][i]:
+        return {'signature': 'lookup:' + (st if st != 'present' else 'equal-but-not-the-node'),
+                'what': 'the reported path %r of %r: exists/get/query give %s' % (unwpath(p), spec, st)}
+      if out['symbolic']:
+        so = out['sym_obs'][i]
+        if so != [True, True, True]:
+          return {'signature': 'exists:sym_has-reported-path-absent', 'what': 'the reported path %r (holding %r) of %r: '
+                  'sym_has / sym_get is node / sym_has(str) = %s' % (unwpath(p), node, spec, so)}
+    if all(wf_key(k) for p in all_nodes(e) for k in p) and out['n_all'] != len(want):
+      return {'signature': 'query:all-nodes', 'what': 'pg.query selecting every node returns %s entries for %d nodes' % (out['n_all'], len(want))}
+    for w, got, x in zip(case['probes'], m['probes'], out['probe_x']):
+      p = unwpath(w)
+      r = resolves(e, p)
+      if r is None:
+        continue
+      if got is not r:
+        return {'signature': 'exists:absent-path-present' if got is True else 'exists:present-path-absent',
+                'what': 'KeyPath(%r).exists(%r) = %r' % (p, spec, got)}
+      if x['get'] != ('found' if r else 'default') or x['query'] != ('found' if r else 'KeyError'):
+        return {'signature': 'exists:get-query', 'what': 'KeyPath(%r) on %r: get %s, query %s' % (p, spec, x['get'], x['query'])}
+      if 'sym_has' in x and x['sym_has'] is not r:
+        return {'signature': 'exists:sym_has', 'what': '%r.sym_has(%r) = %r' % (spec, p, x['sym_has'])}
+    return None
 
   def impl_routes(self, case, KeyPath):
     """Builds the same key sequence in every way the API offers and observes each result."""
@@ -1042,6 +1385,8 @@ class C10(Prop):
           return {'signature': 'roundtrip-of-parsed', 'what': 'parse(%r) = %r prints and parses back to %s' % (
               uncps(case['s']), keys, self._show_parsed(out.get('back')))}
       return None
+    if op == 'look':
+      return self.oracle_look(case, out)
     if op == 'routes':
       return self.oracle_routes(case, out)
     if op == 'arith':
@@ -1284,7 +1629,7 @@ class C10(Prop):
       if len(out['all_q']) != len(want):
         return {'signature': 'query:all-nodes', 'what': 'pg.query selecting every node returns %d entries for %d nodes: %r' % (
             len(out['all_q']), len(want), [uncps(k) for k in out['all_q']][:12])}
-      ints = [p for p in all_nodes(v) if isinstance(self._at(v, p), int)]
+      ints = [p for p in all_nodes(v) if isinstance(self._at(v, p), int) and not isinstance(self._at(v, p), bool)]
       if len(m['rebind']['d']) != len(ints):
         return {'signature': 'rebinder:entries', 'what': 'get_rebind_dict has %d entries for %d int leaves' % (
             len(m['rebind']['d']), len(ints))}
@@ -1294,7 +1639,7 @@ class C10(Prop):
           old_x = KeyPath.parse(uncps(k)).query(v)
         except Exception as e:     # pylint: disable=broad-except
           return {'signature': 'rebinder:address', 'what': 'rebind key %r does not address a node: %s' % (uncps(k), type(e).__name__)}
-        if not isinstance(old_x, int) or old_x + 1 != x:
+        if not isinstance(old_x, int) or isinstance(old_x, bool) or old_x + 1 != x:
           return {'signature': 'rebinder:address', 'what': 'rebind key %r addresses %r, new value %r' % (uncps(k), old_x, x)}
     if out['leaves_rx'] != m['leaves']:
       return {'signature': 'query:regex-vs-plain', 'what': 'pg.query with a match-all path_regex selects %s, without %s' % (
@@ -1349,6 +1694,8 @@ class C10(Prop):
       return len({json.dumps(p) for p in case['ps']}) == 3
     if op == 'set':
       return len(case['ops']) >= 2 and len(case['a']) >= 1
+    if op == 'look':
+      return depth_of(expected_tree(unwval(case['v']), case['sym'])) >= 2
     if op in ('hier', 'query', 'canon'):
       return depth_of(unwval(case['v'])) >= 2
     return True
@@ -1401,6 +1748,17 @@ class C10(Prop):
         c = m['canon_flat_' + name]
         h.append('hier:canon_flat_%s=%s' % (name, c['err'] if isinstance(c, dict) and 'err' in c else
                                            'identity' if c == unfold_w(case['v']) else 'different'))
+    elif op == 'look':
+      if out.get('build_error'):
+        return h + ['look:build-error']
+      e = expected_tree(unwval(case['v']), case['sym'])
+      h.append('look:root=' + ('object' if 'o' in case['v'] else 'symbolic' if case['sym'] else 'plain'))
+      leaves = [self._at(e, p) for p in all_nodes(e)]
+      h.append('look:missing-leaves=%d' % min(sum(1 for x in leaves if x is MISSING_H), 3))
+      h.append('look:falsy-leaves=%d' % min(sum(1 for x in leaves if x is not MISSING_H and not isinstance(x, (dict, list)) and not x), 3))
+      h.append('look:nodes=%d' % min(len(leaves), 15))
+      for pr in m['probes']:
+        h.append('look:probe=%s' % pr)
     elif op == 'query':
       r = m['r']
       h.append('query:' + (r['err'] if isinstance(r, dict) and 'err' in r else 'found'))
@@ -1469,6 +1827,49 @@ class C10(Prop):
           c = dict(case)
           c['ps'] = list(case['ps'])
           c['ps'][i] = p[:j] + p[j + 1:]
+          yield c
+    elif op == 'look':
+      import copy
+      if case['probes']:
+        c = dict(case)
+        c['probes'] = []
+        yield c
+        for i in range(len(case['probes'])):
+          c = dict(case)
+          c['probes'] = case['probes'][:i] + case['probes'][i + 1:]
+          yield c
+      v = unwval(case['v'])
+
+      def variants(x):
+        """smaller specs: drop one item / field, or replace the spec by one of its children."""
+        if isinstance(x, ObjSpec):
+          for f in list(x.fields):
+            yield ObjSpec(x.cls, {k: y for k, y in x.fields.items() if k != f})
+            for y in variants(x.fields[f]):
+              yield ObjSpec(x.cls, dict(x.fields, **{f: y}))
+        elif isinstance(x, dict):
+          for k in list(x):
+            yield {k2: y for k2, y in x.items() if k2 != k}
+            for y in variants(x[k]):
+              yield dict(x, **{k: y}) if isinstance(k, str) else {k2: (y if k2 == k else y2) for k2, y2 in x.items()}
+        elif isinstance(x, list):
+          for i in range(len(x)):
+            yield x[:i] + x[i + 1:]
+            for y in variants(x[i]):
+              yield x[:i] + [y] + x[i + 1:]
+      for v2 in variants(v):
+        if isinstance(v2, (dict, list, ObjSpec)):
+          c = dict(case)
+          c['v'] = wval(v2)
+          c['probes'] = []
+          yield c
+      kids = (list(v.fields.values()) if isinstance(v, ObjSpec) else list(v.values()) if isinstance(v, dict)
+              else list(v) if isinstance(v, list) else [])
+      for y in kids:
+        if isinstance(y, (dict, list, ObjSpec)):
+          c = dict(case)
+          c['v'] = wval(y)
+          c['probes'] = []
           yield c
     elif op in ('hier', 'canon', 'query'):
       import copy
